@@ -31,7 +31,7 @@ type rowDef struct {
 }
 
 type kase struct {
-	slot int // worker announcing this case to the progress watchdog (not part of the case)
+	slot int      // worker announcing this case to the progress watchdog (not part of the case)
 	Kind string   `json:"kind"` // aseq aqseq multi mqulti
 	Rows []rowDef `json:"rows"`
 	Ops  []string `json:"ops"`
@@ -297,7 +297,7 @@ func scribbleQ(b []alphabet.QLetter) {
 	}
 }
 
-var opNames = []string{"AC1", "AC2", "AE", "AE2", "DL0", "DLl", "ADD", "FS", "FE", "FB", "TR", "TR1", "SS", "CL", "CK", "SET"}
+var opNames = []string{"AC1", "AC2", "ACX", "AE", "AE2", "DL0", "DLl", "ADD", "FS", "FE", "FB", "TR", "TR1", "SS", "CL", "CK", "SET"}
 
 type frozen struct {
 	c container
@@ -333,6 +333,39 @@ func apply(c container, m *model, op string, frz *[]frozen, errp *string) (conta
 		return nil
 	}
 	switch op {
+	case "ACX":
+		// a call that must be REJECTED: a well-formed column followed by one that is an entry short.
+		// Nothing is demanded of the call itself (if it is accepted, or leaves the rows changed, the
+		// history is dropped); what it may leave behind unseen is met by the edits that follow.
+		if n == 0 {
+			return c, false
+		}
+		dump := func() string {
+			var sb strings.Builder
+			rw := c.(seq.Rower)
+			for i := 0; i < rw.Rows(); i++ {
+				r := rw.Row(i)
+				lo, hi := r.Start(), r.End()
+				if a, ok := c.(interface {
+					Start() int
+					End() int
+				}); ok && m.aligned() {
+					lo, hi = a.Start(), a.End() // rows of column-stored alignments are read in alignment coordinates
+				}
+				fmt.Fprintf(&sb, "%s[%d,%d):", r.Name(), lo, hi)
+				for p := lo; p < hi; p++ {
+					ql := r.At(p)
+					fmt.Fprintf(&sb, "%c%d", ql.L, ql.Q)
+				}
+				sb.WriteByte('|')
+			}
+			return sb.String()
+		}
+		before := dump()
+		bad := [][]alphabet.QLetter{colLetters(n, 5), colLetters(n-1, 6)}
+		if appendCols(bad...) == nil || dump() != before {
+			return c, false
+		}
 	case "AC1", "AC2":
 		if n == 0 {
 			return c, false
